@@ -112,6 +112,13 @@ impl GenericsAnalyzer {
 
     pub fn analyze_fn_deps(&mut self, input_sig: InputSig<'_>, opts: &Opts) -> syn::Result<FnDeps> {
         if opts.no_deps_value() {
+            if let Some(syn::FnArg::Receiver(receiver)) = input_sig.inputs.first() {
+                return Err(syn::Error::new(
+                    receiver.span(),
+                    "Function cannot have a self receiver",
+                ));
+            }
+
             return self.deps_with_generics(FnDeps::NoDeps, &input_sig.generics);
         }
 
